@@ -368,6 +368,12 @@ package netty
 //@ assume iface Channel.Close
 //@   modifies all
 //@   preserves handlerContext.*, pipeline.*, ghost node, ghost pos
+//@ assume iface Channel.Trigger
+//@   modifies all
+//@   preserves handlerContext.*, pipeline.*, ghost node, ghost pos
+//@ assume iface Channel.Write
+//@   modifies all
+//@   preserves handlerContext.*, pipeline.*, ghost node, ghost pos
 //@ assume iface Channel.Write1
 //@   modifies all
 //@ assume iface Channel.Writev
@@ -455,7 +461,7 @@ package netty
 //@ spec func chinv(c *channel) bool = c != nil && c.ctx != nil && c.transport != nil && c.executor != nil && c.cancel != nil && c.pipeline != nil
 //@ spec func asyncInv(c *channel) bool = chinv(c) && c.writeQueue != nil && cap(c.writeQueue) >= 1
 
-//@ property C01 C02 C09 C10 C11 C18
+//@ property C01 C02 C06 C09 C10 C11 C18
 //@ func (*channel).asyncWrite
 //@   inline
 //@   requires asyncInv(c) && ctx != nil && len(p) <= 1<<47
@@ -476,7 +482,7 @@ package netty
 //@   ensures closed_branch_fails@C11: implies(count("recv c.ctx.Done()") == 1, result1 != nil)
 
 // asyncWritev: all buffers are merged into ONE packet (C09: a vectored message is one queue entry)
-//@ property C01 C02 C09 C10 C11 C18
+//@ property C01 C02 C06 C09 C10 C11 C18
 //@ func (*channel).asyncWritev
 //@   inline
 //@   requires asyncInv(c) && ctx != nil
@@ -586,6 +592,7 @@ package netty
 //@   loop 2 decreases len(recycleBuffers) - rangeindex
 //@   ensures flush_release_recheck: implies(count("netty.channel.Close") == 0, count("store c.running") == 1 && evis(last("store c.running") - 1, "Transport.Flush") && evis(last("store c.running") + 1, "len c.writeQueue") && evarg(last("store c.running"), 0) == 0)
 //@   ensures exit_when_empty_or_other_owner: implies(count("netty.channel.Close") == 0, (evres(last("store c.running") + 1, 0) == 0 && nemitted() == last("store c.running") + 2) || (evres(last("store c.running") + 1, 0) > 0 && evis(nemitted()-1, "cas c.running") && !evres(nemitted()-1, 0) && nemitted() == last("store c.running") + 3))
+//@   ensures only_close_tears_down@C05_C07: count("net.Conn.Close") == 0 && count("context.CancelFunc") == 0 && count("Pipeline.FireChannelInactive") == 0
 //@   ensures failure_releases_then_closes: implies(count("netty.channel.Close") == 1, evis(nemitted()-1, "netty.channel.Close") && evis(nemitted()-2, "store c.running") && evarg(nemitted()-2, 0) == 0 && evarg(nemitted()-1, 0) == c && evarg(nemitted()-1, 1) != nil)
 //@ order (*channel).writeOnce: "BuffersWriter.Writev" dominates "pbytes.Put"
 //@ order (*channel).writeOnce: "Transport.Flush" dominates "store c.running"
